@@ -89,6 +89,21 @@ def _events(repo, ids):
     return out
 
 
+def _newest_onto(repo):
+    """onto_head of the newest rebase_start event in the real journal (None when absent)"""
+    p = os.path.join(repo, ".git", "ai", "rewrite_log")
+    if not os.path.exists(p):
+        return None
+    for line in open(p):
+        try:
+            d = json.loads(line)
+        except Exception:
+            continue
+        if "rebase_start" in d:
+            return d["rebase_start"].get("onto_head")
+    return None
+
+
 def _in_progress(repo, kind):
     g = os.path.join(repo, ".git")
     if kind == "rebase":
@@ -136,7 +151,13 @@ class Tie:
             mb = mb.strip()
             if rc == 0 and mb:
                 n1 = self.w.sim.realgit("rev-list", "--count", f"{mb}..{head_for_count}")[1].strip()
-                n2 = self.w.sim.realgit("rev-list", "--count", f"{mb}..{head_after}")[1].strip()
+                # build_rebase_commit_mappings bounds the new side by the Start event's onto_head when that is an
+                # ancestor of the new head (a rebase whose commits all became empty leaves HEAD == onto: nothing to map)
+                lower = mb
+                onto = _newest_onto(repo) if kind == "rebase" else None
+                if onto and self.w.sim.realgit("merge-base", "--is-ancestor", onto, head_after)[0] == 0:
+                    lower = onto
+                n2 = self.w.sim.realgit("rev-list", "--count", f"{lower}..{head_after}")[1].strip()
                 if kind == "rebase":
                     has = int(n1 not in ("", "0") and n2 not in ("", "0"))
                 else:       # cherry-pick maps the source commits onto the commits created on top of the old HEAD
